@@ -7,6 +7,7 @@ package main
 import (
 	"fmt"
 	"regexp"
+	"runtime/debug"
 	"sort"
 	"strings"
 	"time"
@@ -19,11 +20,11 @@ import (
 
 // abstract call-graph description (shared with C13/C20 generators)
 type gStmt struct {
-	Kind string  `json:"kind"` // call | action | ret | if | else | foreach | loop | alt | group
-	App  string  `json:"app,omitempty"`
-	Ep   string  `json:"ep,omitempty"`
-	Text string  `json:"text,omitempty"`
-	Body []gStmt `json:"body,omitempty"`
+	Kind string    `json:"kind"` // call | action | ret | if | else | foreach | loop | alt | group
+	App  string    `json:"app,omitempty"`
+	Ep   string    `json:"ep,omitempty"`
+	Text string    `json:"text,omitempty"`
+	Body []gStmt   `json:"body,omitempty"`
 	Alts [][]gStmt `json:"alts,omitempty"`
 }
 type gEp struct {
@@ -374,6 +375,64 @@ func parseIntsArrows(text string) (arrows [][2]string, ok bool) {
 	return arrows, true
 }
 
+var (
+	reEpaApp   = regexp.MustCompile(`^state "([^"]*)" as (X_\d+)`)
+	reEpaState = regexp.MustCompile(`^state "[^"]*" as (_\d+)`)
+	reEpaArrow = regexp.MustCompile(`^(_\d+) -\[#\w+\]-*> (_\d+)`)
+)
+
+// parseEpaArrows: the endpoint-analysis view nests endpoint states in application states; an arrow between states
+// of two applications is a call drawn from the first to the second
+func parseEpaArrows(text string) (arrows [][2]string, ok bool) {
+	appOf := map[string]string{}
+	cur := ""
+	seen := map[[2]string]bool{}
+	for _, ln := range strings.Split(text, "\n") {
+		ln = strings.TrimSpace(ln)
+		if m := reEpaApp.FindStringSubmatch(ln); m != nil {
+			cur = m[1]
+			continue
+		}
+		if ln == "}" {
+			cur = ""
+			continue
+		}
+		if m := reEpaState.FindStringSubmatch(ln); m != nil && cur != "" {
+			appOf[m[1]] = cur
+			continue
+		}
+		if m := reEpaArrow.FindStringSubmatch(ln); m != nil {
+			a, okA := appOf[m[1]]
+			b, okB := appOf[m[2]]
+			if !okA || !okB {
+				return nil, false
+			}
+			if a != b && !seen[[2]string{a, b}] {
+				seen[[2]string{a, b}] = true
+				arrows = append(arrows, [2]string{a, b})
+			}
+		}
+	}
+	return arrows, true
+}
+
+// c14Frame: the first sysl frame of a stack below the panic
+func c14Frame(stack string) string {
+	past := false
+	for _, l := range strings.Split(stack, "\n") {
+		if strings.HasPrefix(l, "panic(") {
+			past = true
+			continue
+		}
+		if past {
+			if f := reC20Frame.FindStringSubmatch(l); f != nil && !strings.HasPrefix(l, "\t") {
+				return f[1]
+			}
+		}
+	}
+	return "?"
+}
+
 func init() { runners["C14"] = runC14 }
 
 func runC14(res *Result, tier string, rnd *Rand, replay string) {
@@ -398,11 +457,12 @@ func runC14(res *Result, tier string, rnd *Rand, replay string) {
 	logger := logrus.New()
 	logger.SetLevel(logrus.PanicLevel)
 	type obs struct {
-		m      *gModel
-		deps   [][]string
-		final  []string
-		arrows [][2]string
-		views  map[string]string
+		m              *gModel
+		deps           [][]string
+		final          []string
+		arrows         [][2]string
+		clustered, epa string
+		views          map[string]string
 	}
 	var all []obs
 	var reqs []any
@@ -422,6 +482,8 @@ func runC14(res *Result, tier string, rnd *Rand, replay string) {
 			text   string
 			views  map[string]string
 			panicv string
+			// the other two renderings of the main view
+			clustered, epa string
 		}
 		ch := make(chan out, 1)
 		done := Track(m)
@@ -429,7 +491,7 @@ func runC14(res *Result, tier string, rnd *Rand, replay string) {
 			var r out
 			defer func() {
 				if x := recover(); x != nil {
-					r.panicv = fmt.Sprint(x)
+					r.panicv = fmt.Sprint(x) + " at " + c14Frame(string(debug.Stack()))
 				}
 				ch <- r
 			}()
@@ -445,6 +507,15 @@ func runC14(res *Result, tier string, rnd *Rand, replay string) {
 			if err == nil {
 				r.text = views["Proj.png"]
 				r.views = views
+			}
+			// the same view drawn clustered and as an endpoint analysis
+			pc := &cmdutils.CmdContextParamIntgen{Title: "t", Output: "%(epname).png", Project: "Project", Clustered: true}
+			if vc, err := integrationdiagram.GenerateIntegrations(pc, mod, logger); err == nil {
+				r.clustered = vc["Proj.png"]
+			}
+			pe := &cmdutils.CmdContextParamIntgen{Title: "t", Output: "%(epname).png", Project: "Project", EPA: true}
+			if ve, err := integrationdiagram.GenerateIntegrations(pe, mod, logger); err == nil {
+				r.epa = ve["Proj.png"]
 			}
 		}()
 		var r out
@@ -467,6 +538,7 @@ func runC14(res *Result, tier string, rnd *Rand, replay string) {
 		}
 		o.arrows = ar
 		o.views = r.views
+		o.clustered, o.epa = r.clustered, r.epa
 		all = append(all, o)
 		reqs = append(reqs, m.oracleReq())
 		nested := strings.Contains(txt, "            ")
@@ -494,6 +566,22 @@ func runC14(res *Result, tier string, rnd *Rand, replay string) {
 		}
 		// ---- direct oracle on the PlantUML arrows, for every view generated in the call ----
 		c14DirectView(res, o.m, o.m.Seeds, o.m.Excludes, o.arrows)
+		if o.clustered != "" {
+			if ar, ok := parseIntsArrows(o.clustered); ok {
+				res.Count("view:clustered")
+				c14DirectView(res, o.m, o.m.Seeds, o.m.Excludes, ar)
+			} else {
+				res.Disagree(Disagreement{Input: o.m, What: "clustered view: arrow uses an undeclared alias", Impl: o.clustered})
+			}
+		}
+		if o.epa != "" {
+			if ar, ok := parseEpaArrows(o.epa); ok {
+				res.Count("view:epa")
+				c14DirectView(res, o.m, o.m.Seeds, o.m.Excludes, ar)
+			} else {
+				res.Disagree(Disagreement{Input: o.m, What: "endpoint-analysis view: arrow uses an undeclared state", Impl: o.epa})
+			}
+		}
 		for vi, v := range o.m.Extra {
 			txt, ok := o.views[fmt.Sprintf("View%d.png", vi)]
 			if !ok {
